@@ -291,12 +291,14 @@ def main(chk):
         configs += [(p, "empty", "cancel", ()) for p in rng.sample(only4, 25)]
         configs += [(p, "idle", "timeout", ()) for p in rng.sample(p4, 35)]
         configs += [(p, "idle", "cancel", POST) for p in rng.sample(p4, 35)]
+        configs += [(p, "idle2", "cancel", ()) for p in rng.sample(p4, 30)]
     else:
         configs += [(p, "idle", "cancel", ()) for p in only5]
         configs += [(p, pool, "cancel", ()) for p in p4 for pool in ("empty", "cold")]
         configs += [(p, "idle", "timeout", ()) for p in p4]
         configs += [(p, pool, "cancel", POST) for p in p4 for pool in ("idle", "empty")]
         configs += [(p, "empty", "timeout", POST) for p in rng.sample(only5, 150)]
+        configs += [(p, "idle2", "cancel", ()) for p in p3 + rng.sample(only4, 150)]
     if "b" not in parts:
         configs = configs[:40]
     stride = int(os.environ.get("VERIF_C29_STRIDE", "1"))      # developer knob (mutant runs): every n-th configuration only
@@ -305,8 +307,11 @@ def main(chk):
     t0 = time.time()
     traces, stats = run_programs(chk, configs, "b")
     t_runs = time.time() - t0
-    if stats["errors"]:
-        chk.machinery("harness errors: %s" % stats["errors"][:3])
+    for err in stats["errors"][:50]:
+        # the asyncio API itself failed while the harness drove it (warm-up, a run that never finishes, an exception outside the
+        # program's task): on the unchanged tree there is none; it is a failure of the code under test, not of the machinery
+        chk.violation({"spec": "TraceAsyncCancel", "action": "run", "kind": "run-error", "rule": err.split(": ", 1)[-1][:60]},
+                      "the program could not be run through the asyncio API: %s" % err, {"error": err})
     t0 = time.time()
     rej, tstates, tgen = validate(chk, traces, "b")
     t_tlc = time.time() - t0
@@ -353,9 +358,11 @@ def main(chk):
             "returned_by_finalizer": sum(1 for i, _ in traces if i["gc_return"]),
             "abandoned_while_being_created": sum(1 for i, _ in traces if i["abandoned"]),
             "timeouts": sum(1 for i, _ in traces if i["mode"] == "timeout" and i["k"] is not None),
+            "terminated_next_to_an_idle_connection": sum(1 for i, _ in traces if i["pool"] == "idle2" and i["terminated"]),
             "effect_before_suspension": sum(1 for i, _ in traces if i["post"] and i["k"] is not None)}
     for k in ("cancel_while_shielded_close_runs", "cancel_in_driver_call", "cancel_in_commit_call", "terminated_after_cancel",
               "returned_by_finalizer", "timeouts", "effect_before_suspension", "cancel_in_non_database_await",
+              "terminated_next_to_an_idle_connection",
               "cancel_in_non_database_await_inside_begin_block"):
         if not cats[k] and "b" in parts and stride == 1:
             chk.machinery("vacuous: no trace with %s" % k)
@@ -392,7 +399,8 @@ def main(chk):
         assumptions=["SQLite only; crash points enumerated on a deterministic fake aiosqlite (every driver call suspends exactly once, before or "
                      "after its effect) over real sqlite3; asyncpg / psycopg-async / aiomysql need servers that do not exist here",
                      "real aiosqlite (worker thread) only for clause (a)",
-                     "one task, one connection or session per program, one cancellation / timeout per run; QueuePool(1, max_overflow=0)",
+                     "one task, one connection or session per program, one cancellation / timeout per run; QueuePool(1, max_overflow=0) "
+                     "(QueuePool(2, 0) with a second idle connection in the `idle2` runs)",
                      "a DBAPI connection abandoned while it is still being created (cancel during on-connect set-up) is counted "
                      "(situation_counts.abandoned_while_being_created), not judged: the property speaks about checked-out / pooled connections",
                      "bounds: model %s; traces: programs <= %d ops" % (consts, 5)])
